@@ -61,7 +61,7 @@ def key_of(c):
 # seed, adsorbate sites).  The panel is a pure function of this file, so the failing subset on the unchanged tree is a
 # fixed finite list (known_findings.json); any combination that changes from holding to failing is reported.
 # VERIF_SEED only selects which eighth of the panel the quick tier evaluates.
-PRESENTATIONS_PER_COMBO = 2
+PRESENTATIONS_PER_COMBO = 3      # the third presentation additionally moves the slab half-way along its normal: it then lies across the periodic boundary
 ROT = [[1.0, 0.0, 0.0, 0.0], [0.3, 0.5, -0.7, 0.2], [-0.6, 0.1, 0.4, 0.9], [0.9, -0.8, 0.3, -0.1], [0.2, 0.9, 0.6, -0.5], [0.0, 1.0, 0.0, 0.0],
        [-0.4, -0.4, 0.8, 0.3], [0.7, 0.2, 0.2, 0.7]]
 
@@ -79,7 +79,10 @@ def panel():
             h = _h(k, j)
             pres = {"quat": ROT[h % len(ROT)], "trans": [((h >> 8) % 1000) / 100.0 - 5.0, ((h >> 20) % 1000) / 100.0 - 5.0, ((h >> 32) % 1000) / 100.0 - 5.0],
                     "perm": (h >> 4) % (2 ** 32), "noise_seed": 0, "sbc_seed": 0}
-            out.append({"combo": c, "pres": pres, "ads_seed": _h(k, "ads%d" % j) % (2 ** 32), "panel_index": j})
+            item = {"combo": c, "pres": pres, "ads_seed": _h(k, "ads%d" % j) % (2 ** 32), "panel_index": j}
+            if j == 2:
+                item["wrap_frac"] = 0.35 + ((h >> 40) % 30) / 100.0      # 0.35 .. 0.64 of the cell height
+            out.append(item)
     return out
 
 
@@ -142,6 +145,12 @@ def run_case(desc):
                 d = covalent_radii[Z] + covalent_radii[s.get_atomic_numbers()[j]] + 0.2
                 s += Atoms(numbers=[Z], positions=[pos[j] + np.array([0.0, 0.0, d])])
                 ads.append(len(s) - 1)
+    if desc.get("wrap_frac"):
+        # the same periodic structure, stored with the slab (and its adsorbates) across the periodic boundary of the normal axis
+        s = s.copy()
+        s.translate(np.asarray(s.get_cell())[2] * float(desc["wrap_frac"]))
+        s.wrap()
+        out.cls("across-boundary")
     s2, perm = gm.present(s, desc["pres"], 0.0)
     inv = {int(old): new for new, old in enumerate(perm)}
     ads2 = sorted(inv[a] for a in ads)
